@@ -70,7 +70,11 @@ class AddonPersistence(Addon, metaclass=abc.ABCMeta):
             self._event_depth -= 1
         # do not save an intermediate state from a nested call (e.g. an FSM chained
         # transition); the event being handled may still fail
-        if self.persistent and self.sync_state and self._event_depth == 0:
+        # do not touch the storage either while the block is not initialized: a conditional
+        # event resolving to no event does not initialize the block and a save attempt
+        # would discard the saved state before it is restored
+        if (self.persistent and self.sync_state and self._event_depth == 0
+                and self.is_initialized()):
             self.save_persistent_state()
         return retval
 
